@@ -24,7 +24,8 @@ Decos == {"none", "swift_deco", "swift_decos2", "kotlin_deco", "redacted", "cons
 \* some target language: */ /* """ a trailing backslash. C15 judges where the text ends up; here the file must stay well formed.
 Docs == {"none", "all", "multiline", "hostile", "hostile_multi"}
 \* folder: folder-output mode with a second crate whose type is imported (import lines are part of the file)
-Cfgs == {"default", "prefix", "packages", "swift_defaults", "header", "folder", "folder_prefix"}
+\* packages_single: package names of ONE segment (com.example.app is three): Kotlin / Scala / Go
+Cfgs == {"default", "prefix", "packages", "packages_single", "swift_defaults", "header", "folder", "folder_prefix"}
 
 HasMembers(k) == k \in {"struct", "generic_struct", "unit_enum", "enum_newtype", "enum_struct", "enum_mixed", "generic_enum", "enum_tag_dashed", "enum_tag_kw"}
 IsEnum(k) == k \in {"unit_enum", "enum_newtype", "enum_struct", "enum_mixed", "generic_enum", "enum_tag_dashed", "enum_tag_kw"}
